@@ -14,7 +14,8 @@ META = {
              'is a boundary value of its domain or belongs to a rejection class'),
     'required_obs': {'quick': ['code-' + c for c in CODES] + ['uvari-width-1', 'uvari-width-2', 'uvari-width-4',
                                'rejected-out-of-range', 'rejected-non-ascii', 'rejected-too-long', 'cache-collision-pair',
-                               'e2e-contract-evals', 'obname-copy>0', 'obname-origin-2byte', 'obname-after-identity-change', 'dtime-utc-year-differs', 'numpy-scalar-zero-pair']},
+                               'e2e-contract-evals', 'obname-copy>0', 'obname-origin-2byte', 'obname-after-identity-change', 'dtime-utc-year-differs', 'numpy-scalar-zero-pair', 'list-with-unrepresentable-element',
+                               'list-round-trip']},
     'exhaustive_windows': {'quick': ['UVARI: every value 0..20000 and 2^30-3..2^30+3', 'USHORT/SSHORT: whole domain +-2',
                                      'IDENT lengths 0..260', 'STATUS -2..3'],
                            'thorough': ['UVARI: every value 0..70000', 'UNORM/SNORM whole domain +-2', 'IDENT/ASCII lengths 0..300']},
@@ -49,6 +50,10 @@ def cases(tier, seed):
         yield {'stratum': 'random-history', 'index': k, 'kind': 'history', 'n': 600}
     for k in range(40 if tier == 'quick' else 600):
         yield {'stratum': 'e2e-contracts', 'index': k, 'kind': 'e2e'}
+    # the same values reached through attributes: value LISTS of every length class, with and without an element the
+    # inferred code cannot represent
+    for k in range(40 if tier == 'quick' else 800):
+        yield {'stratum': 'attribute-value-lists', 'index': k, 'kind': 'lists'}
 
 
 def run_case(case):
@@ -328,6 +333,52 @@ def run_case(case):
         r.shuffle(seq)
         for c, v, exp, cls in seq:
             judge(c, v, exp, real(c, v), cls, boundary=cls not in ('in', 'finite', 'w1', 'len<128'))
+    elif k == 'lists':
+        from vf import oracle
+        r = gen.rng(seed, PROP, case['stratum'], case['index'])
+        n = r.choice([1, 2, 15, 16, 17, 40, 127, 128, 300])
+        t, kw = r.choice([('axis', 'coordinates'), ('axis', 'coordinates'), ('computation', 'values'), ('calibration_coefficient', 'coefficients')])
+        flavour = r.choice(['int', 'int', 'float', 'mixed'])
+        if flavour == 'int':
+            vals = [r.choice([0, 1, -1, 127, 128, 32767, -32768, 2 ** 31 - 1, -2 ** 31, r.randint(-10 ** 6, 10 ** 6)]) for _ in range(n)]
+        elif flavour == 'float':
+            vals = [r.choice([0.0, -0.0, 1.5, 1e300, -1e-300, float(r.randint(-9, 9))]) for _ in range(n)]
+        else:
+            vals = [r.choice([1, 2.5, -3, 4.0]) for _ in range(n)]
+        bad = None
+        if flavour == 'int' and r.random() < 0.5:
+            bad = r.choice([2 ** 31, 2 ** 31 + 5, -2 ** 31 - 1, 3000000000, 2 ** 40, -2 ** 63])
+            vals[r.randrange(n)] = bad
+        sp = gen.minimal(r.choice([256, 8192]))
+        sp['write'] = {'output_chunk_size': 2 ** 16}
+        sp['ops'].append({'op': t, 'name': 'LISTS', 'attrs': {kw: vals}})
+        run = harness.execute(sp, want_taps=False)
+        evals[0] += 1
+        rejected = run.built is not None and run.built.error is None and run.built.outcomes[-1][0] != 'ok'
+        bump('list-len-%s' % ('1' if n == 1 else '<16' if n < 16 else '16-127' if n < 128 else '>=128'))
+        sigs.add(f'lists:{t}:{flavour}:{n}:{bad is not None}')
+        if bad is not None:
+            bump('list-with-unrepresentable-element')
+            if run.data is not None and not rejected:
+                # written: then under a code that holds the value exactly (e.g. FDOUBL), or it is a violation
+                oracle.check_c05(run)
+                if run.by_prop('C05') or run.stage_error is not None:
+                    what = run.by_prop('C05')[0].detail if run.by_prop('C05') else str(run.stage_error[1])
+                    vio.append({'prop': PROP, 'kind': 'unrepresentable-accepted', 'mech': 'accepted:list-element-out-of-range',
+                                'detail': f'{t}.{kw}: {n} integer values incl. {bad} were written, but not faithfully: {what[:200]}'})
+                else:
+                    bump('int-beyond-slong-written-exactly-under-another-code')
+            else:
+                bump('rejected-out-of-range')
+        elif run.data is not None and not rejected:
+            oracle.check_c05(run)
+            for v in run.by_prop('C05'):
+                vio.append({'prop': PROP, 'kind': 'encoding-mismatch', 'mech': 'list:' + v.mech, 'detail': v.detail})
+            if run.stage_error is not None:
+                vio.append({'prop': PROP, 'kind': 'encoding-mismatch', 'mech': 'list:undecodable', 'detail': str(run.stage_error[1])})
+            bump('list-round-trip')
+        else:
+            bump('representable-rejected:list:%s' % (run.wout[1] if run.data is None else run.built.outcomes[-1][1]))
     else:   # e2e: the round-trip contracts observe every encoder call of a real write
         contracts.attach_codec()
         contracts.drain()
